@@ -164,8 +164,11 @@ def cargo_build():
     return rc == 0, out + err
 
 
+GEN_EXTRA = []
+
+
 def gen_ops(stream, seed, cases):
-    rc, out, err = run([VH, "gen", stream, "--seed", str(seed), "--cases", str(cases)], timeout=1800)
+    rc, out, err = run([VH, "gen", stream, "--seed", str(seed), "--cases", str(cases)] + GEN_EXTRA, timeout=1800)
     if rc != 0:
         raise RuntimeError("vh gen failed: " + err[:2000])
     return out.splitlines()
@@ -397,6 +400,8 @@ def main():
     if a.replay:
         sys.exit(do_replay(pid, a.replay))
     tier = "thorough" if a.tier == "thorough" else "quick"
+    if tier == "thorough":
+        GEN_EXTRA.append("--thorough")
     seed = int(os.environ.get("VERIF_SEED", "1") or 1)
     t0 = time.time()
     findings = load_findings(pid)
